@@ -33,6 +33,7 @@ def run(repo, run, tier):
     t_eval_multiset(repo, run, fn)
     first_step_bounded(repo, run, fn)
     clamped_step_bounded(repo, run)
+    teval_values_are_integrated(repo, run, fn)
 
 
 def construction(repo, run, fn):
@@ -401,3 +402,31 @@ def clamped_step_bounded(repo, run):
     if fs is None or fs["clamp"] is None or "cond" not in fs:
         raise AnalysisError("integrate(): the clamp of the last step was not found")
     _final_predicate(run, rid, m, m.canon, fs, rule_id="C18.9")
+
+
+def teval_values_are_integrated(repo, run, fn):
+    """'with t_eval it returns exactly those times and the solution there to tolerance ... results agree with driving the object API': the states returned for t_eval are
+    states the integrator was stopped at (integrate(t) per point, last recorded sample).  Values read off the dense output are cubic-Hermite interpolants, O(h^4) whatever
+    the order of the method: with a high-order method taking long steps they miss the tolerance by orders of magnitude."""
+    rid = run.rule("C18.10", "every value of the returned state array in the t_eval case comes from recorded samples (stack of the samples appended in the t_eval loop), on every "
+                             "path: no path fills it from the dense output / an interpolant", floor=1)
+    sysnames = {t.id for st in walk_no_nested(fn) if isinstance(st, ast.Assign) and isinstance(st.value, ast.Call) and dotted(st.value.func) == "OdeSystem"
+                for t in st.targets if isinstance(t, ast.Name)}
+    calls = [c for c in ast.walk(fn) if isinstance(c, ast.Call) and dotted(c.func) == "OdeResult"]
+    ykw = next((k.value for k in calls[0].keywords if k.arg == "y"), None) if calls else None
+    if not isinstance(ykw, ast.Name):
+        raise AnalysisError("solve_ivp: OdeResult(y=<name>) not found")
+    yname = ykw.id
+    defs = [st for st in walk_no_nested(fn) if isinstance(st, ast.Assign) and any(isinstance(t, ast.Name) and t.id == yname for t in st.targets)]
+    bad = []
+    for st in defs:
+        for x in ast.walk(st.value):
+            if isinstance(x, ast.Call) and isinstance(x.func, ast.Attribute) and x.func.attr in ("sol", "grad") and isinstance(x.func.value, ast.Name) and x.func.value.id in sysnames:
+                bad.append((st, x))
+            if isinstance(x, ast.Call) and isinstance(x.func, ast.Name) and x.func.id in ("sol", "dense", "interp"):
+                bad.append((st, x))
+    run.judged(rid, "definitions of the returned state array `%s`: %d, read off the dense output: %d" % (yname, len(defs), len(bad)), ok=not bad)
+    for st, x in bad:
+        run.report("C18.10", DS, x, "the states returned for t_eval are read off the dense output (`%s`) instead of being the samples the integrator was stopped at: the dense output is a "
+                   "cubic Hermite interpolant for every method, so with a high-order method (long steps) the returned columns miss the requested tolerance by orders of magnitude and "
+                   "disagree with driving the object API point by point" % src(x)[:60])
